@@ -143,6 +143,19 @@ def c15(seed, n, pool=None):
     byid = dict(cases)
     fails, kdiffs = [], []
     stats = collections.Counter()
+    # a request refused as a whole although every trait's own part of it (with its companion) is accepted alone:
+    # some trait's outcome depends on attributes that are not its own
+    parts = collections.defaultdict(list)
+    for cid, rid, t, keep in plan:
+        parts[cid].append((t, rid))
+    for cid, l in parts.items():
+        r0 = outcome(real[cid])
+        if r0[0] == 'ERR' and all(outcome(real[rid])[0] == 'OK' for t, rid in l):
+            stats['refused_only_together'] += 1
+            fails.append(dict(key='c15:' + k1lib_hash(byid[cid].rust() + 'together'),
+                              what='every trait of this request is accepted when requested alone with its own attributes (%s), but together the request is refused: %s'
+                                   % (', '.join(t for t, rid in l), real[cid][1][:160]),
+                              input=byid[cid].rust(), input2=[byid[rid].rust() for t, rid in l]))
     for cid, rid, t, keep in plan:
         r0 = outcome(real[cid]); r1 = outcome(real[rid])
         if r0[0] != 'OK':
@@ -174,15 +187,30 @@ def c16(seed, n, pool=None, processes=3):
     cases = []
     for i in range(n):
         must = ['Into'] if i % 2 == 0 and 'Into' in pool else None
-        c = gen.gen_case('c16-%d-%d' % (seed, i), 0, pool, want_fault=(i % 10 == 0), must=must)
+        c = gen.gen_case('c16-%d-%d' % (seed, i), 0, pool, want_fault=(i % 3 == 0), must=must)
         cases.append(('c16-%d' % i, c))
     src = [(i, c.rust()) for i, c in cases]
     runs = [k1.run_real(src, repeat=3)] + [k1.run_real(src) for _ in range(processes - 1)]
+    # the same macro source built under the release profile (no debug assertions, no overflow checks):
+    # "the output depends on nothing but the input tokens and the enabled features"
+    rel = None
+    hdir = os.path.join(k1.ROOT, 'harness')
+    env = dict(os.environ, CARGO_NET_OFFLINE='true')
+    p = subprocess.run(['cargo', 'build', '--offline', '--release'], cwd=hdir, env=env, capture_output=True, text=True, timeout=1500)
+    reldrv = os.path.join(hdir, 'target/release/k1driver')
+    if p.returncode == 0 and os.path.exists(reldrv):
+        rel = k1.run_real(src, driver=reldrv)
     fails = []
-    stats = collections.Counter()
+    stats = collections.Counter(release_profile_compared=0 if rel is None else len(rel))
+    if rel is None:
+        stats['release_build_failed'] = 1
     for i, c in cases:
         outs = [r[i] for r in runs]
         stats['cases'] += 1
+        if rel is not None and i in rel and outs[0][0] != 'NONDET' and rel[i] != outs[0]:
+            fails.append(dict(key='c16:profile:' + k1lib_hash(c.rust()), input=c.rust(),
+                              what='the same input expands differently when the macro crate is built under the release profile (debug assertions / overflow checks off): %s vs %s'
+                                   % (outs[0][0], rel[i][0])))
         if outs[0][0] == 'NONDET':
             fails.append(dict(key='c16:' + k1lib_hash(c.rust()), what='the same input expanded three times in one process gives different token streams', input=c.rust()))
         elif any(o != outs[0] for o in outs[1:]):
@@ -398,10 +426,17 @@ def c13(seed, n, pool=None):
     for i in range(n):
         c = gen.gen_case('c13-%d-%d' % (seed, i), 0, pool, want_fault=(i % 10 != 0))
         cases.append(('c13-%d' % i, c))
+    grid = c13_grid()
+    if n < 20000:
+        # quick tier: a seeded third of the grid
+        rr = random.Random('c13grid-%d' % seed)
+        grid = [g for g in grid if rr.random() < 0.34]
+    for j, c in enumerate(grid):
+        cases.append(('c13g-%d' % j, c))
     real = k1.run_real([(i, c.rust()) for i, c in cases])
     cls = k1.run_classes([(i, c.sx()) for i, c in cases])
     fails = []
-    stats = collections.Counter()
+    stats = collections.Counter(grid=len(grid))
     for i, c in cases:
         if i not in cls:
             stats['unclassified'] += 1
@@ -418,6 +453,118 @@ def c13(seed, n, pool=None):
         elif r[0] == 'OK' and allc and gap:
             stats['known_gap_accepted'] += 1
             fails.append(dict(key='c13:copy-attrs-unchecked-with-clone', what='known gap: Copy(...) attributes below the type level are not validated when Clone is educed', input=c.rust(), classes=allc))
+    return fails, [], dict(stats)
+
+
+
+# ---------------------------------------------------------------- C13: systematic grid
+def c13_grid():
+    """systematic invalid requests (beside the random stream): every educed set of one trait (or a trait and its
+    companion) x every other trait named below the type level x every position; every ordered pair of spellings
+    of one parameter (any values) in one list x every trait / position that takes the parameter"""
+    import dinput as D
+    T = gen.ALL_TRAITS
+    base_type = {'Into': 'Into(u8)', 'Default': 'Default'}
+    def type_attr(S):
+        return ', '.join(base_type.get(t, t) for t in S)
+    sets = [[t] for t in T] + [['PartialEq', 'Eq'], ['PartialOrd', 'Ord'], ['Clone', 'Copy'], ['Deref', 'DerefMut'],
+                               ['Debug', 'Hash'], ['PartialEq', 'Eq', 'PartialOrd', 'Ord']]
+    def shapes(S, tmeta, where, extra):
+        """the request with `extra` put at `where`"""
+        out = []
+        e = lambda txt: [D.educe(txt)] if txt else []
+        if where == 'struct_field':
+            out.append(D.Input('struct', 'S', attrs=e(tmeta), fkind='named', fields=[D.Field('a', 'u8', attrs=e(extra))]))
+            out.append(D.Input('struct', 'S', attrs=e(tmeta), fkind='unnamed', fields=[D.Field(None, 'u8', attrs=e(extra))]))
+        elif where in ('variant', 'variant_field'):
+            dflt = ['Default'] if 'Default' in S else []
+            for k in range(2):
+                va = [[], []]; fa = [[], []]
+                (va if where == 'variant' else fa)[k] = [extra]
+                vs = [D.Variant('A', 'unnamed', fields=[D.Field(None, 'u8', attrs=e(', '.join(fa[0])))], attrs=e(', '.join(dflt + va[0]))),
+                      D.Variant('B', 'named', fields=[D.Field('x', 'u8', attrs=e(', '.join(fa[1])))], attrs=e(', '.join(va[1])))]
+                out.append(D.Input('enum', 'E', attrs=e(tmeta), variants=vs))
+        elif where == 'type':
+            out.append(D.Input('struct', 'S', attrs=e(tmeta), fkind='named', fields=[D.Field('a', 'u8')]))
+            out.append(D.Input('enum', 'E', attrs=e(tmeta), variants=[D.Variant('A', 'unnamed', fields=[D.Field(None, 'u8')], attrs=e('Default' if 'Default' in S else ''))]))
+        return out
+    cases = []
+    # (A) a trait that is not educed, named below the type level
+    for S in sets:
+        for X in T:
+            if X in S:
+                continue
+            for form in ['%s', '%s(ignore)', '%s = false', '%s()', '%s(name = false)', '%s(method(m))']:
+                for where in ('struct_field', 'variant', 'variant_field'):
+                    for inp in shapes(S, type_attr(S), where, form % X):
+                        inp.fault = 'grid:not_educed'
+                        cases.append(inp)
+    # (B) one parameter twice in one list
+    SP = {'ignore': ['ignore', 'ignore = true', 'ignore = false', 'ignore(false)', 'ignore(true)'],
+          'method': ['method(m)', 'method = m', 'method = "n"'],
+          'rank': ['rank = 1', 'rank(2)', 'rank = "1"'],
+          'name': ['name = a', 'name(b)', 'name = "a"', 'name = false', 'name(true)'],
+          'named_field': ['named_field = true', 'named_field(false)', 'named_field = false'],
+          'bound': ['bound(*)', 'bound = false', 'bound(u8: Copy)', 'bound = "u8: Copy"', 'bound()', 'bound = true'],
+          'new': ['new', 'new = true', 'new(false)', 'new = false'],
+          'expression': ['expression = 1', 'expr = 1', 'expression(2)', 'expr(1)'],
+          'unsafe': ['unsafe', 'unsafe']}
+    FIELD_P = {'ignore': ['Debug', 'PartialEq', 'PartialOrd', 'Ord', 'Hash'],
+               'method': ['Debug', 'Clone', 'PartialEq', 'PartialOrd', 'Ord', 'Hash'],
+               'rank': ['PartialOrd', 'Ord'], 'name': ['Debug'], 'expression': ['Default']}
+    TYPE_P = {'bound': ['Debug', 'Clone', 'Copy', 'PartialEq', 'Eq', 'PartialOrd', 'Ord', 'Hash', 'Default'],
+              'name': ['Debug'], 'named_field': ['Debug'], 'new': ['Default'], 'expression': ['Default']}
+    VAR_P = {'name': ['Debug'], 'named_field': ['Debug']}
+    def pairs(param):
+        l = SP[param]
+        return [(a, b) for a in l for b in l]
+    for P, places in ((FIELD_P, ('struct_field', 'variant_field')), (TYPE_P, ('type',)), (VAR_P, ('variant',))):
+        for param, traits in P.items():
+            for t in traits:
+                for a, b in pairs(param):
+                    mids = ['']
+                    if places == ('struct_field', 'variant_field'):
+                        if param != 'ignore' and t in FIELD_P['ignore']:
+                            mids.append('ignore = false')
+                        if param == 'ignore' and t in FIELD_P['method']:
+                            mids.append('method(m)')
+                    for mid in mids:
+                        lst = ', '.join(x for x in (a, mid, b) if x)
+                        S = [t] if t != 'Copy' else ['Clone', 'Copy']
+                        tm = type_attr(S)
+                        for where in places:
+                            if where == 'type':
+                                tm2 = ', '.join(('%s(%s)' % (x, lst)) if x == t else base_type.get(x, x) for x in S)
+                                shp = shapes(S, tm2, 'type', None)
+                            else:
+                                shp = shapes(S, tm, where, '%s(%s)' % (t, lst))
+                            for inp in shp:
+                                inp.fault = 'grid:param_twice'
+                                cases.append(inp)
+    for inp in cases:
+        inp.notes = {}; inp.traits = []
+    return cases
+
+# ---------------------------------------------------------------- C07 (rejection side)
+def c07(seed, n, pool=None):
+    """where the generated clone cannot honour a custom clone method (unions: `*self`; structs with Copy: `*self`),
+    a field that designates one must be refused: accepted, the field would be copied bitwise instead of through
+    its method"""
+    cases = []
+    for i in range(n):
+        c = gen.gen_case('c07-%d-%d' % (seed, i), 0, ['Clone', 'Copy'], want_fault=True,
+                         kinds=('union', 'struct', 'union'), must=['Clone'])
+        cases.append(('c07-%d' % i, c))
+    sel = [(i, c) for i, c in cases if (c.fault or '').startswith('clone_method_refused')]
+    real = k1.run_real([(i, c.rust()) for i, c in sel])
+    fails = []
+    stats = collections.Counter(cases=len(cases), method_where_unusable=len(sel))
+    for i, c in sel:
+        r = outcome(real[i])
+        stats['real_' + r[0]] += 1
+        if r[0] == 'OK':
+            fails.append(dict(key='c07:' + k1lib_hash(c.rust()), input=c.rust(),
+                              what='a field designates a custom clone method on a type whose generated clone is a bitwise copy (%s); the request is accepted and the method is never called' % c.fault.split('@')[1]))
     return fails, [], dict(stats)
 
 
